@@ -14,6 +14,7 @@ from fractions import Fraction
 
 from . import common
 from . import floatcases as fc
+from . import tieb_stores
 from .common import Check
 
 RULE = ("deterministic boundary corpus (instants at the epoch, 2020, the 2^51 us boundary of 2041, leap "
@@ -440,7 +441,8 @@ def main(argv=None):
 
     # Proofs/PyFloatExhaustive.v: the axiom-free exhaustive proof of the ms floor (10^6 values in the kernel's vm);
     # built and kernel-checked by coqc here, kept out of Props/C13.v's dependencies because coqchk has no vm
-    proved = ck.prove(extra_targets=["Proofs/Codec.v", "Proofs/PyFloatExhaustive.v", "Model/EventWire.v"])
+    proved = ck.prove(extra_targets=["Proofs/Codec.v", "Proofs/PyFloatExhaustive.v", "Model/EventWire.v"]
+                      + tieb_stores.EVENT_CODEC[0], gen_kernels=tieb_stores.EVENT_CODEC[1])   # ties A + B
     rng = ck.rng
     thorough = ck.tier == "thorough"
     schema = get_json_schema("event")
